@@ -348,7 +348,8 @@ pub fn run(prop: &str, tier: &str, replay: Option<&str>) -> i32 {
     }
     // 2. error texts: complete distance-1 neighbourhoods of the key's DER through every loader / parser
     for (ki, k) in keys.iter().enumerate() {
-        if (k.label.starts_with("generated") || k.der.len() > 200) && !thorough {
+        // quick: keys of at most 170 bytes (Ed25519, P-256 in both forms, P-384 as SEC1); the PKCS#8 form of P-384 and everything larger in thorough
+        if (k.label.starts_with("generated") || k.der.len() > 170) && !thorough {
             continue;
         }
         let n_all = d1_count(k.der.len());
